@@ -20,7 +20,12 @@ import (
 	"github.com/AliyunContainerService/terway/pkg/link"
 	"github.com/AliyunContainerService/terway/pkg/tc"
 	"github.com/AliyunContainerService/terway/plugin/datapath"
+	"github.com/AliyunContainerService/terway/plugin/driver/nic"
+	dtypes "github.com/AliyunContainerService/terway/plugin/driver/types"
 	"github.com/AliyunContainerService/terway/plugin/driver/utils"
+	ttypes "github.com/AliyunContainerService/terway/types"
+
+	"verifharness/monitor"
 )
 
 func init() { register("C14", &checkDef{level: "exploration", fn: runC14}) }
@@ -367,6 +372,40 @@ func runC14(c *ctxT) {
 	}
 	r.DistinctKey("tableid/injective-1..65535")
 
+	// the table a datapath really programs for an interface: every generator, two interfaces of one pod on one
+	// ENI (multi-network), IPv4 / IPv6 / dual: each interface uses exactly one table, its own
+	c14TablesPerInterface(r, rng)
+
+	// a classifier installed for one address is recognised (tc.Contain) for exactly that address: the question
+	// EnsureVlanTag asks before it keeps, adds or deletes a filter
+	for n := 0; n < 20000; n++ {
+		v6 := rng.Intn(2) == 0
+		a := randAddr(rng, v6)
+		b := a
+		switch rng.Intn(4) {
+		case 0:
+		case 1:
+			b = randAddr(rng, v6)
+		default:
+			// differs from a in exactly one (late) byte: shares every earlier 32-bit word
+			raw := a.AsSlice()
+			raw[len(raw)-1-rng.Intn(len(raw)/2)] ^= byte(1 + rng.Intn(255))
+			b, _ = netip.AddrFromSlice(raw)
+		}
+		bits := 32
+		if v6 {
+			bits = 128
+		}
+		ka := tc.U32MatchSrc(&net.IPNet{IP: a.AsSlice(), Mask: net.CIDRMask(bits, bits)})
+		kb := tc.U32MatchSrc(&net.IPNet{IP: b.AsSlice(), Mask: net.CIDRMask(bits, bits)})
+		got := tc.Contain(ka, kb)
+		evals++
+		if got != (a == b) {
+			r.Violate("C14.classifier-recognition", fmt.Sprintf("v6=%v", v6), fmt.Sprintf("the classifier installed for %v is recognised as the one for %v: %v", a, b, got), map[string]any{"installed": a.String(), "asked": b.String()})
+		}
+	}
+	r.DistinctKey("contain/host-classifiers")
+
 	// host veth names
 	alphabet := []string{"", "a", "eth0", "eth1", "net1", "e", "eth00", "é", "\x00", strings.Repeat("n", 253), "kube-system", "default", "pod-0", "a.b", "b"}
 	randName := func() string {
@@ -426,4 +465,72 @@ func runC14(c *ctxT) {
 	r.SetExtra("exhaustive", false)
 	r.SetExtra("exhaustive_dimensions", "prefix length 0..32 and 0..128; link index 1..65535")
 	r.Assumptions = []string{"CIDR values reach terway through net.ParseCIDR or as (IP, mask) pairs of equal family; hand-built IPNet with mismatched IP/mask length are out of scope", "u32 key semantics are the kernel's cls_u32: (be32(data+off) ^ val) & mask == 0"}
+}
+
+func c14TablesPerInterface(r *monitor.Result, rng *rand.Rand) {
+	mac, _ := net.ParseMAC("02:00:00:00:00:01")
+	for n := 0; n < 400; n++ {
+		v4, v6 := true, true
+		switch n % 3 {
+		case 1:
+			v6 = false
+		case 2:
+			v4 = false
+		}
+		eniIdx := 2 + rng.Intn(30)
+		idxA := 40 + rng.Intn(100)
+		idxB := idxA + 1 + rng.Intn(50)
+		mk := func(ifn string, host int) *dtypes.SetupConfig {
+			cfg := &dtypes.SetupConfig{HostVETHName: "cali0", ContainerIfName: ifn, ContainerIPNet: &ttypes.IPNetSet{}, GatewayIP: &ttypes.IPSet{}, ENIGatewayIP: &ttypes.IPSet{}, MTU: 1500, ENIIndex: eniIdx,
+				DefaultRoute: ifn == "eth0", MultiNetwork: true, HostIPSet: &ttypes.IPNetSet{}, ServiceCIDR: &ttypes.IPNetSet{}}
+			if v4 {
+				cfg.ContainerIPNet.IPv4 = c13CIDR(fmt.Sprintf("10.9.0.%d/16", host))
+				cfg.GatewayIP.IPv4 = net.ParseIP("10.9.255.253")
+				cfg.HostIPSet.IPv4 = c13CIDR("10.9.0.2/16")
+			}
+			if v6 {
+				cfg.ContainerIPNet.IPv6 = c13CIDR(fmt.Sprintf("fd00:9::%x/64", host))
+				cfg.GatewayIP.IPv6 = net.ParseIP("fd00:9::fffd")
+				cfg.HostIPSet.IPv6 = c13CIDR("fd00:9::2/64")
+			}
+			return cfg
+		}
+		la := &netlink.Device{LinkAttrs: netlink.LinkAttrs{Index: idxA, Name: "eth0", HardwareAddr: mac}}
+		lb := &netlink.Device{LinkAttrs: netlink.LinkAttrs{Index: idxB, Name: "eth1", HardwareAddr: mac}}
+		ca, cb := mk("eth0", 10), mk("eth1", 11)
+		gens := map[string]func(cfg *dtypes.SetupConfig, l netlink.Link) *nic.Conf{
+			"policy-route": func(cfg *dtypes.SetupConfig, l netlink.Link) *nic.Conf {
+				return datapath.VerifGenerateContCfgForPolicy(cfg, l, mac)
+			},
+			"exclusive-eni": datapath.VerifGenerateContCfgForExclusiveENI,
+			"ipvlan":        datapath.VerifGenerateContCfgForIPVlan,
+			"vlan":          datapath.VerifGenerateContCfgForVlan,
+		}
+		for dp, gen := range gens {
+			tables := func(conf *nic.Conf) map[int]bool {
+				t := map[int]bool{}
+				for _, ru := range conf.Rules {
+					t[ru.Table] = true
+				}
+				for _, rt := range conf.Routes {
+					if rt.Table != 0 && rt.Table != 254 {
+						t[rt.Table] = true
+					}
+				}
+				return t
+			}
+			ta, tb := tables(gen(ca, la)), tables(gen(cb, lb))
+			r.Eval(1)
+			if len(ta) != 1 || len(tb) != 1 {
+				r.Violate("C14.table-id", dp+"/several-tables-for-one-interface", fmt.Sprintf("%s (v4=%v v6=%v): interface eth0 (index %d) uses tables %v, eth1 (index %d) uses %v; each must use exactly one", dp, v4, v6, idxA, ta, idxB, tb), map[string]any{"datapath": dp, "v4": v4, "v6": v6})
+				continue
+			}
+			for t := range ta {
+				if tb[t] {
+					r.Violate("C14.table-id", dp+"/shared-between-interfaces", fmt.Sprintf("%s (v4=%v v6=%v): interfaces with index %d and %d of one pod both use table %d", dp, v4, v6, idxA, idxB, t), map[string]any{"datapath": dp})
+				}
+			}
+		}
+	}
+	r.DistinctKey("tableid/generators")
 }
